@@ -74,7 +74,7 @@ def write_graph(graph, where="home"):
 
 
 SLIM = ("r", "ra", "ru", "ria", "b", "ba", "bu", "c", "rf", "re", "re2",
-        "rpa", "ms", "cm", "cma", "rsb")
+        "rpa", "ms", "cm", "cma", "rsb", "rfail")
 
 
 def commands(graph, targets):
@@ -85,7 +85,7 @@ def commands(graph, targets):
     for t in targets:
         for c in ("r", "ra", "ru", "ri", "ria", "rp", "b", "ba", "bu", "c",
                   "p", "pr", "sc", "rf", "re", "re2", "rpa", "riu", "ms", "cm",
-                  "cma", "rsb", "rsq"):
+                  "cma", "rsb", "rsq", "rfail"):
             if slim and c not in SLIM:
                 continue
             cmds.append((c, t))
@@ -131,6 +131,9 @@ def command_text(graph, cmd):
         # other spellings of the same module name name the same instance
         "rsb": f"require 'M{t}.ckl' as ST{t}; ST{t}->bump_{t}()",
         "rsq": f"require \"M{t}\" as SQ{t}; SQ{t}->bump_{t}()",
+        # a script that loads a module and fails afterwards: the module
+        # stays loaded (and bound), a later require does not run it again
+        "rfail": f"require M{t}; error 'after-require'",
         "rf": f"def rq{t}() do require M{t}; M{t}->bump_{t}() end; rq{t}()",
         # issued through interpret(.., environment=E): E persistent / fresh
         "re": f"require M{t}; M{t}->bump_{t}()",
@@ -306,6 +309,14 @@ class Importer(e4.Explorer):
                     m.names[n] = ("mod", x)
                     m.written.discard(n)
                 resp = ["value", f"['M{a}', 'M{b}', 'M{a}']"]
+            elif c == "rfail":
+                m.load(t, [])
+                n = f"M{t}"
+                if n not in m.names:
+                    added.add(n)
+                m.names[n] = ("mod", t)
+                m.written.discard(n)
+                resp = ["rt", "'after-require'"]
             elif c in ("rsb", "rsq"):
                 m.load(t, [])
                 n = ("ST" if c == "rsb" else "SQ") + str(t)
